@@ -599,11 +599,12 @@ func (s *c16Srv) pduOther(h *c16Host, k int) {
 		raw = []byte{0, 10, 0, 0, 0, 0, 0, 8} // unknown PDU type
 	case 3:
 		// IPv4 prefix PDU whose max length is shorter than the prefix: ParseRTR rejects it
-		p := rtr.NewRTRIPPrefix(netip.MustParseAddr("10.0.0.0"), 24, 16, 100, rtr.ANNOUNCEMENT)
-		raw = c16Ser(p)
+		// (the constructor refuses such values since the C19 fix, so patch the octets of a valid PDU)
+		raw = c16Ser(rtr.NewRTRIPPrefix(netip.MustParseAddr("10.0.0.0"), 24, 24, 100, rtr.ANNOUNCEMENT))
+		raw[10] = 16 // max length
 	default:
-		p := rtr.NewRTRIPPrefix(netip.MustParseAddr("10.0.0.0"), 8, 33, 100, rtr.ANNOUNCEMENT)
-		raw = c16Ser(p)
+		raw = c16Ser(rtr.NewRTRIPPrefix(netip.MustParseAddr("10.0.0.0"), 8, 8, 100, rtr.ANNOUNCEMENT))
+		raw[10] = 33 // max length beyond the address width
 	}
 	s.pdu(h, raw, "other")
 }
